@@ -48,7 +48,9 @@ fn flag(args: &[String], name: &str) -> bool {
 fn main() {
     let args: Vec<String> = std::env::args().collect();
     // panics of the code under test are data, not noise
-    std::panic::set_hook(Box::new(|_| {}));
+    if std::env::var_os("VERIF_VERBOSE").is_none() {
+        std::panic::set_hook(Box::new(|_| {}));
+    }
     let cmd = args.get(1).map(|s| s.as_str()).unwrap_or("");
     match cmd {
         "replay" => {
